@@ -209,6 +209,10 @@ func (vc *VC) closure(st *State, name string, arr, alloc *Term) {
 		o, l, c := sib("#o"), sib("#l"), sib("#c")
 		if strings.HasPrefix(name, "H.") {
 			vc.cmds = append(vc.cmds, fmt.Sprintf("(assert (forall ((r Int)) (! (=> (select %s r) (and (<= 0 (select %s r)) (<= 0 (select %s r)) (<= (select %s r) (select %s r)) (=> (= (select %s r) 0) (and (= (select %s r) 0) (= (select %s r) 0))))) :pattern ((select %s r)) :pattern ((select %s r))))) ;E", al, o, l, l, c, a, l, c, a, l))
+		} else {
+			// slices stored as elements of an allocated backing array (slices of slices)
+			e2 := func(arr string) string { return "(select (select " + arr + " b) p)" }
+			vc.cmds = append(vc.cmds, fmt.Sprintf("(assert (forall ((b Int) (p Int)) (! (=> (select %s b) (and (<= 0 %s) (<= 0 %s) (<= %s %s) (=> (= %s 0) (and (= %s 0) (= %s 0))))) :pattern (%s) :pattern (%s)))) ;E", al, e2(o), e2(l), e2(l), e2(c), e2(a), e2(l), e2(c), e2(a), e2(l)))
 		}
 	}
 	switch {
